@@ -90,7 +90,45 @@ let split_cmd track max related standalone =
       Printf.sprintf "%s:%s" (hex_of_n len) (String.concat "," (List.map hex_of_n ids))) ms)
   | Err -> "ERR" | Panic -> "PANIC"
 
+let parse_msgs s = if s = "-" || s = "" then [] else
+  List.map (fun m -> match String.split_on_char ':' m with
+    | [c; p] -> (n_of_hex c, bytes_of_hex p) | _ -> failwith "msg") (String.split_on_char ',' s)
+let fmt_msgs ms = if ms = [] then "-" else
+  String.concat "," (List.map (fun (c, p) -> Printf.sprintf "%s:%s" (hex_of_n c) (hex_of_bytes p)) ms)
+
+let cond_cmd s =
+  match conditioner_batches (List.map parse_msgs (String.split_on_char '/' s)) with
+  | Ok ms -> fmt_msgs ms | Err -> "ERR" | Panic -> "PANIC"
+
+(* sender: frame every message (failing ones are reported and skipped, what was written stays written);
+   receiver: read until it would block; leftovers stay in the socket for the next round *)
+let tcp_cmd s =
+  let pending = ref [] in
+  let outs = List.map (fun round ->
+    let msgs = parse_msgs round in
+    let errs = ref [] in
+    List.iteri (fun i (c, p) -> match frame c p with
+      | Ok bs -> pending := !pending @ bs
+      | _ -> errs := Printf.sprintf "E%x" i :: !errs) msgs;
+    let ((got, stop), rest) = parse_all false !pending in
+    pending := rest;
+    let r = fmt_msgs got in
+    let errs = List.rev !errs in
+    ignore stop;
+    if errs = [] then r else r ^ "!" ^ String.concat "!" errs) (String.split_on_char '/' s) in
+  String.concat "/" outs
+
+let proto_cmd s =
+  let items = List.filter (fun i -> i <> "" && i <> "-") (String.split_on_char ',' s) in
+  let items = List.map (fun it -> match String.split_on_char ':' it with
+    | [p; prio; _; name] -> ((n_of_hex p, n_of_hex prio), bytes_of_hex name) | _ -> failwith "item") items in
+  match protocol_hash_of items with Ok h -> hex_of_n h | Err -> "ERR" | Panic -> "PANIC"
+
 let handle cmd args = match cmd, args with
+  | "cond", [s] -> cond_cmd s
+  | "tcp", [s] -> tcp_cmd s
+  | "proto", [] -> proto_cmd ""
+  | "proto", [s] -> proto_cmd s
   | "can_pack", [a; b; c] -> (match can_pack (n_of_hex a) (n_of_hex b) (n_of_hex c) with Ok b -> b01 b | _ -> "PANIC")
   | "split", [track; max; related; standalone] -> split_cmd track max related standalone
   | "tcmp", [a; b] -> (match tick_cmp (n_of_hex a) (n_of_hex b) with Lt -> "L" | Eq -> "E" | Gt -> "G")
